@@ -135,6 +135,8 @@ type WireMonitor struct {
 	// PartialAtWrite counts Write boundaries that fell inside a frame.
 	PartialAtWrite int
 	Abandoned      int
+	KeepRaw        bool
+	Raw            []byte
 }
 
 // Trailing returns the number of bytes of an incomplete frame at the end of
@@ -150,6 +152,9 @@ func (m *WireMonitor) violate(f string, a ...any) {
 // Write feeds one buffer handed to Transport.Write.
 func (m *WireMonitor) Write(p []byte) {
 	m.Bytes += len(p)
+	if m.KeepRaw {
+		m.Raw = append(m.Raw, p...)
+	}
 	m.buf = append(m.buf, p...)
 	for {
 		fr, ok, err := refParseFrame(m.buf)
@@ -212,4 +217,64 @@ func (m *WireMonitor) frame(fr RFrame) {
 		}
 		m.cur = nil
 	}
+}
+
+// ---- reference protobuf codec for message{ map<string,string> = 1 } ------------------
+
+type kv struct{ K, V string }
+
+var errRefMeta = errors.New("ref: malformed metadata")
+
+// refDecodeMeta decodes the wire form of the metadata message into ordered pairs,
+// accepting only the canonical shape the property describes: repeated field 1
+// (length delimited) whose payload is field 1 (key) then field 2 (value).
+func refDecodeMeta(b []byte) ([]kv, error) {
+	var out []kv
+	for len(b) > 0 {
+		if b[0] != 0x0a {
+			return nil, errRefMeta
+		}
+		l, n, ok, err := refVarint(b[1:])
+		if !ok || err != nil || l > uint64(len(b)-1-n) {
+			return nil, errRefMeta
+		}
+		ent := b[1+n : 1+n+int(l)]
+		b = b[1+n+int(l):]
+		if len(ent) == 0 || ent[0] != 0x0a {
+			return nil, errRefMeta
+		}
+		kl, kn, ok, err := refVarint(ent[1:])
+		if !ok || err != nil || kl > uint64(len(ent)-1-kn) {
+			return nil, errRefMeta
+		}
+		key := string(ent[1+kn : 1+kn+int(kl)])
+		ent = ent[1+kn+int(kl):]
+		if len(ent) == 0 || ent[0] != 0x12 {
+			return nil, errRefMeta
+		}
+		vl, vn, ok, err := refVarint(ent[1:])
+		if !ok || err != nil || vl != uint64(len(ent)-1-vn) {
+			return nil, errRefMeta
+		}
+		out = append(out, kv{key, string(ent[1+vn:])})
+	}
+	return out, nil
+}
+
+// refEncodeMeta is the canonical protobuf encoding of the pairs in order.
+func refEncodeMeta(pairs []kv) []byte {
+	var b []byte
+	for _, p := range pairs {
+		var ent []byte
+		ent = append(ent, 0x0a)
+		ent = refAppendVarint(ent, uint64(len(p.K)))
+		ent = append(ent, p.K...)
+		ent = append(ent, 0x12)
+		ent = refAppendVarint(ent, uint64(len(p.V)))
+		ent = append(ent, p.V...)
+		b = append(b, 0x0a)
+		b = refAppendVarint(b, uint64(len(ent)))
+		b = append(b, ent...)
+	}
+	return b
 }
